@@ -126,9 +126,13 @@ def r1(ctx, F, sc, conf):
             if fl.guarded_by(pb, lb, 'Some'):
                 guards.append((lb, lt, c))
         ok = False
+        unread = None
         why = 'no lookup Some edge guards the copy'
         for lb, lt, c in guards:
             good, reason = conf.get(c, (False, 'unknown lookup'))
+            if good is None:
+                unread = '%s: %s' % (c.split('::')[-1], reason)
+                continue
             if not good:
                 why = '%s does not confirm candidates with the strong hash (%s)' % (c.split('::')[-1], reason)
                 continue
@@ -163,6 +167,9 @@ def r1(ctx, F, sc, conf):
                 why = 'copy offset does not derive from the matched block index'
                 continue
             ok = True
+        if not ok and unread:
+            ctx.undecided('C01.R1', '%s: the copy is behind a lookup whose confirmation could not be read (%s)' % (tag, unread))
+            continue
         if not ok and not guards:
             # no Some edge of a lookup leads here - but the copy's offset may still be computed from what a confirming lookup
             # returned, handed through combinators the edge rules do not follow (`gate.then(|| lookup).flatten()`): not decided
